@@ -38,6 +38,8 @@ Definition check_search : P (list Z) :=
         | None => false
         end in
       (* the property, evaluated on what the implementation returned and asked for *)
+      (* the generated directory must lie in the theorems' domain: min <= cur, stamps non-decreasing *)
+      if negb ((min <=? fst curs) && monob st min (fst curs)) then pfail else
       let j2 :=
         if curok then
           if min <=? fst curs then
